@@ -192,6 +192,7 @@ class BacktrackSolver(Solver):
         compute_domains_addrs, var_heuristic_addrs, dom_heuristic_addrs, consistency_alg_addrs = (
             get_function_addresses()
         )
+        self.restart()  # the solver may have been used before
         best_solution = None
         while (
             solution := solve_one(
@@ -244,6 +245,20 @@ class BacktrackSolver(Solver):
                 break
         return best_solution
 
+    def restart(self) -> None:
+        """
+        Puts the search back to the root of the search tree with the initial domains of the problem,
+        a call to solve(), minimize() or maximize() never continues the search of an earlier call.
+        """
+        reset(
+            self.problem,
+            self.shr_domains_stack,
+            self.not_entailed_propagators_stack,
+            self.dom_update_stack,
+            self.stacks_top,
+            self.triggered_propagators,
+        )
+
     def is_empty(self, variable_idx: int) -> bool:
         """
         Returns true iff the domain of a variable is empty.
@@ -262,6 +277,7 @@ class BacktrackSolver(Solver):
         compute_domains_addrs, var_heuristic_addrs, dom_heuristic_addrs, consistency_alg_addrs = (
             get_function_addresses()
         )
+        self.restart()  # the solver may have been used before
         while True:
             solution = solve_one(
                 self.statistics,
